@@ -117,6 +117,40 @@ def ensure_facts(cfg="pb"):
         lock.close()
 
 
+def ensure_fixture_facts():
+    """Facts of /verif/fixtures (positive/negative controls), cached by content hash."""
+    os.makedirs(WORK, exist_ok=True)
+    lock = open(os.path.join(WORK, "lock"), "w")
+    fcntl.flock(lock, fcntl.LOCK_EX)
+    try:
+        if not ensure_driver():
+            return None
+        h = hashlib.sha256()
+        for p in (os.path.join(HERE, "fixtures", "src", "lib.rs"), os.path.join(HERE, "fixtures", "Cargo.toml"), DRIVER):
+            with open(p, "rb") as fh:
+                h.update(fh.read())
+        d = os.path.join(WORK, "facts", "fixtures-%s" % h.hexdigest()[:16])
+        if os.path.isfile(os.path.join(d, "fixtures.json")):
+            return d
+        env = dict(os.environ, MIRFACTS_TARGET=os.path.join(WORK, "target-fixtures"), MIRFACTS_PKG="-p fixtures", MIRFACTS_NONCE="fixtures")
+        p = subprocess.run([os.path.join(HERE, "export.sh"), os.path.join(HERE, "fixtures"), "pb", d, "fixtures"], env=env, stdout=subprocess.PIPE, stderr=subprocess.STDOUT, text=True)
+        if not os.path.isfile(os.path.join(d, "fixtures.json")):
+            sys.stderr.write(p.stdout[-2000:])
+            return None
+        return d
+    finally:
+        fcntl.flock(lock, fcntl.LOCK_UN)
+        lock.close()
+
+
+def run_controls():
+    d = ensure_fixture_facts()
+    if d is None:
+        return None
+    from .fixtures import run
+    return run(d)
+
+
 # --------------------------------------------------------------------------------- running rules
 def analyse(facts_dir, props=None, tier="quick"):
     from .facts import load_dir
@@ -180,6 +214,10 @@ def check_property(prop, tier):
     ev_dir = os.path.join(HERE, "evidence")
     os.makedirs(os.path.join(ev_dir, "replay"), exist_ok=True)
     ev_path = os.path.join(ev_dir, prop + ".json")
+    controls = run_controls()
+    if controls is None or not all(c["ok"] for c in controls):
+        print("raftlint is broken: engine controls on /verif/fixtures failed: %s" % ([c for c in (controls or []) if not c["ok"]][:3]))
+        return 2
     cfgs = ["pb"] + (["prost"] if tier == "thorough" else [])
     all_res = {}
     units = []
@@ -241,7 +279,7 @@ def check_property(prop, tier):
     audit = None
     if tier == "thorough":
         audit = run_audit_for(prop)
-    write_evidence(ev_path, prop, tier, seed, t0, obls, all_res, units, n, nknown=nknown, audit=audit)
+    write_evidence(ev_path, prop, tier, seed, t0, obls, all_res, units, n, nknown=nknown, audit=audit, controls=controls)
     print("%s: %d obligations, %d instances, %d violations, %d known findings (%.1fs, tier %s)" % (
         prop, len(obls), sum(len(v) for v in all_res.values()), n, nknown, time.time() - t0, tier))
     return 1 if n else 0
@@ -277,7 +315,7 @@ def run_audit_for(prop):
     }
 
 
-def write_evidence(path, prop, tier, seed, t0, obls, all_res, units, nviol, nknown=0, audit=None, note=None):
+def write_evidence(path, prop, tier, seed, t0, obls, all_res, units, nviol, nknown=0, audit=None, note=None, controls=None):
     insts = [i for v in all_res.values() for i in v]
     per = {}
     for o in obls:
@@ -309,6 +347,8 @@ def write_evidence(path, prop, tier, seed, t0, obls, all_res, units, nviol, nkno
         "known_findings_suppressed": nknown,
         "exhaustive": True,
     }
+    if controls is not None:
+        cov["engine_controls"] = {"run": len(controls), "as_expected": sum(1 for c in controls if c["ok"]), "names": [c["control"] for c in controls]}
     if audit is not None:
         cov["audit"] = audit
     if note:
@@ -328,6 +368,10 @@ def setup():
         print("driver build failed")
         return 2
     rc = 0
+    c = run_controls()
+    print("controls:", "ok" if c and all(x["ok"] for x in c) else c)
+    if not c or not all(x["ok"] for x in c):
+        rc = 2
     for cfg in ("pb", "prost"):
         d, log = ensure_facts(cfg)
         print("facts[%s]: %s %s" % (cfg, d, log or ""))
